@@ -19,6 +19,7 @@ received / sent per connection with the virtual time; after every
     a connection whose request the server marked persisted is never closed
     by the server while the client keeps it open
 """
+import random
 import ssl
 
 from vf.core import exc_key, Inconclusive, REPO
@@ -91,7 +92,7 @@ def gen_plan(rng, name, front, start):
     if emits and kind in ("close11", "http10") and rng.random() < 0.35:
         # a body much larger than the (deliberately small) socket buffers, read slowly by the client: for longer than
         # the timeout every server pass is a *partial* send -- bytes flow all the time, the connection is not idle
-        plan.big = rng.choice((300000, 450000))
+        plan.big = rng.choice((300000, 450000, 1200000, 1200000))
         plan.emits = emits[:1]
         plan.idle = 60
     return plan
@@ -115,7 +116,12 @@ class World(object):
             kw = dict(scheme="https", certify=ssl.CERT_NONE, keypath=CERTS + "server_key.pem",
                       certpath=CERTS + "server_cert.pem") if tls else dict(scheme="http")
             for port in net.listen_ports():
-                self.front = hserving.Valet(store=self.clk, app=self.app, timeout=T, ha=(HOST, port), wlog=self.wl, **kw)
+                if own == "default":
+                    self.front = hserving.Valet(store=self.clk, app=self.app, ha=(HOST, port), wlog=self.wl, **kw)
+                    if self.front.timeout != T:
+                        raise Inconclusive("a Valet built without a timeout reports %r, not its class default" % (self.front.timeout,))
+                else:
+                    self.front = hserving.Valet(store=self.clk, app=self.app, timeout=T, ha=(HOST, port), wlog=self.wl, **kw)
                 self.srv = self.front.servant
                 if self.srv.reopen():
                     break
@@ -192,6 +198,12 @@ def run_case(ctx, rng, idx):
     own = front == "Valet" and rng.random() < 0.3
     if own:
         T = rng.choice((1.0, 2.0, 8.0, 8.0))      # also a timeout beyond the class default
+        # ... or no timeout argument at all: the configured timeout is then the one the Valet reports (its class default)
+        r2 = random.Random(repr((idx, front, tls, T)))
+        if r2.random() < 0.5:
+            own = "default"
+            from ioflo.aio.http import serving as _hs
+            T = float(_hs.Valet.Timeout)
     nconn = rng.choice((1, 1, 2))
     plans = [gen_plan(rng, "c%da" % idx, front, 0)]
     if nconn == 2:
@@ -201,6 +213,8 @@ def run_case(ctx, rng, idx):
     W = World(front, tls, T, plans, own=own)
     if own:
         ctx.hit("valet_builds_its_own_servant_" + sock)
+        if own == "default":
+            ctx.hit("valet_with_default_timeout_" + sock)
         desc["servant"] = "built by the Valet"
     loop = Loop(W.clk, wall_limit=30.0)
     rounds_per_tick = 3 if tls else 2
@@ -367,4 +381,5 @@ def run(ctx):
     ctx.floor("distinct_nontrivial", ctx.pick(150, 2000))
     for sock in ("plain", "tls"):
         ctx.floor("valet_builds_its_own_servant_%s" % sock, ctx.pick(8, 150))
+        ctx.floor("valet_with_default_timeout_%s" % sock, ctx.pick(3, 40))
     ctx.floor("big_body_transfer_longer_than_timeout", ctx.pick(8, 100))
